@@ -156,6 +156,11 @@ def run(ctx):
         compare_case(ctx, decoder, msg, 'shape', name)
         ctx.count('shape_cases_compared')
         ctx.add('shapes', name)
+    for bi, (name, msg) in enumerate(cases.big_cases(ctx.rng)):
+        if ctx.mine(bi):
+            compare_case(ctx, decoder, msg, 'big', name)
+            ctx.count('big_cases')
+            ctx.add('shapes', name)
     files = corpus_files()
     if ctx.quick:
         files = [f for f in files if os.sep + 'data' + os.sep in f]
